@@ -11,9 +11,57 @@ META = {
     "outside": ["real OBU payload validity (C25/C01)", "more than one outstanding hidden frame", "metadata OBUs"],
     "stubs": ["svt_get_full_object (K results then shutdown)", "svt_get_empty_object/svt_post_full_object/svt_release_object", "encode_sps_av1/write_frame_header_av1/write_metadata_av1 (markers)", "encode_td_av1 (0x12 0x00)", "bitstream_reset/_get_bytes_count/_copy", "qsort (insertion sort)", "svt_av1_get_time (arbitrary)", "rate_control_mode == 0 (update_rc_rate_tables not reached)"],
     "explanation": ""}
-import math
+import math, os, re
+from vlib.core import REPO
+from vlib import slicer
+EC = "Source/Lib/Encoder/Codec/EbEntropyCoding.c"
+def gen_obu(wd):
+    names = ["svt_aom_uleb_size_in_bytes", "svt_aom_uleb_encode", "svt_aom_wb_bytes_written", "svt_aom_wb_write_bit", "svt_aom_wb_write_literal", "write_obu_header", "write_uleb_obu_size", "obu_mem_move"]
+    open(os.path.join(wd, "c02_obu.inc"), "w").write("static const size_t k_maximum_leb_128_size = 8;\nstatic const uint64_t k_maximum_leb_128_value = 0xFFFFFFFFFFFFFF;\n" + slicer.functions(EC, names))
+PK = "Source/Lib/Encoder/Codec/EbPacketizationProcess.c"
+def gen_fill(wd):
+    a = slicer.between(PK, "        output_stream_ptr->pic_type =", ";", include_b=True)
+    b = slicer.between(PK, "        // Code the SPS\n", "encode_sps_av1(")
+    cond = b[b.index("if"):]
+    if cond.count("{") != 1:
+        raise RuntimeError("unexpected shape of the sequence-header condition")
+    open(os.path.join(wd, "c02_fill.inc"), "w").write(
+        "/* sliced verbatim from packetization_kernel */\n"
+        "static void set_pic_type(PictureControlSet *pcs_ptr, EbBufferHeaderType *output_stream_ptr) {\n" + a + "\n}\n"
+        "static void sps_decision(PictureControlSet *pcs_ptr, FrameHeader *frm_hdr, PacketizationReorderEntry *queue_entry_ptr) {\n    (void)pcs_ptr; (void)frm_hdr; (void)queue_entry_ptr;\n    "
+        + cond + " encode_sps_av1_stub(); }\n}\n")
+def gen_drain(wd):
+    src = open(os.path.join(REPO, "Source/Lib/Encoder/Codec/EbPacketizationProcess.c")).read()
+    a = "        uint32_t frames, total_bytes;\n        while ((frames = count_frames_in_next_tu(encode_context_ptr, &total_bytes))) {"
+    if src.count(a) != 1:
+        raise RuntimeError("anchor of the queue-drain loop in packetization_kernel not found exactly once")
+    i = src.index(a)
+    j = src.index("{", i + len(a) - 1)
+    depth, pos = 1, j + 1
+    while depth:
+        c = src[pos]; depth += (c == "{") - (c == "}"); pos += 1
+    body = src[i:pos]
+    with open(os.path.join(wd, "c02_drain.inc"), "w") as f:
+        f.write("/* sliced verbatim from packetization_kernel (EbPacketizationProcess.c) */\n"
+                "static void drain_queue(PacketizationContext *context_ptr, EncodeContext *encode_context_ptr) {\n"
+                "    PacketizationReorderEntry *queue_entry_ptr; EbObjectWrapper *output_stream_wrapper_ptr; EbBufferHeaderType *output_stream_ptr;\n" + body + "\n}\n")
 def queries(tier):
     qs = []
+    OF = [EC + ":" + n for n in ("write_obu_header", "obu_mem_move", "write_uleb_obu_size", "svt_aom_uleb_encode", "svt_aom_uleb_size_in_bytes")]
+    qs.append(Query(name="obu_framing_p0_140", harness="C02/obu.c", defines=["PMIN=0", "PMAX=140"], gen=gen_obu, unwind=160, funcs=OF, timeout=900,
+                    bound="every OBU type 1..8, with/without extension byte, payload length 0..140 (1-byte/2-byte size-field boundary inside), all payload bytes", what="OBU header bits and leb128 size field match the payload; payload intact behind the size field"))
+    qs.append(Query(name="pic_type_and_sps_placement", harness="C02/fill.c", gen=gen_fill, unwind=4, funcs=[PK + ":packetization_kernel (pic_type assignment and sequence-header condition, sliced)"], timeout=600,
+                    bound="all combinations of idr/reference flags and slice types; arbitrary stale reorder-queue entry", what="reported picture type agrees with the frame; sequence header exactly at key frames"))
+    if tier == "thorough":
+        qs.append(Query(name="obu_framing_p16370_16400", harness="C02/obu.c", defines=["PMIN=16370", "PMAX=16400"], gen=gen_obu, unwind=16420, funcs=OF, timeout=3000,
+                        bound="payload length 16370..16400 (2-byte/3-byte boundary)", what="OBU size field matches the payload"))
+    for k, heads in ([] if tier != "thorough" else [(3, [0, 1, 5, 6, 7, 15]), (4, [0, 5, 6, 7])]):
+        for head in heads:
+            qs.append(Query(name="drain_K%d_head%d" % (k, head), harness="C02/drain.c", defines=["K=%d" % k, "HEAD=%d" % head], gen=gen_drain, unwind=2 * k + 6, funcs=F[1:], timeout=900,
+                            bound="window of %d pictures at decode order %d, queue depth macro scaled from 2048 to 8 (wrap 7->0), ALL arrival orders, all hidden/shown/show-existing shapes (<=1 outstanding hidden frame), frame sizes 1..3, stale slot contents, EOS on/off" % (k, head),
+                            what="temporal-unit assembly: one well-formed packet per displayed picture, in order, with the right pts and flags"))
+    if tier != "thorough":
+        return qs
     plan = [(2, [0, 2047, 4095]), (3, [2046])] if tier != "thorough" else [(2, [0, 1, 2046, 2047, 4095]), (3, [0, 2045, 2046, 2047]), (4, [2045, 2046])]
     for k, heads in plan:
         for head in heads:
